@@ -28,6 +28,9 @@ type c19Op struct {
 	Call  LookupCall `json:"call,omitempty"`
 	Opt   LookupSpec `json:"opt,omitempty"`
 	T     int        `json:"t,omitempty"` // triple index for exist
+	// Reuse: the read passes the history's ONE long-lived *LookupOptions value to the wrapper,
+	// its fields set in place (a caller's paging loop does `lo.Offset++` on one value)
+	Reuse bool `json:"reuse,omitempty"`
 }
 
 type c19Case struct {
@@ -117,6 +120,7 @@ func genC19(t *rapid.T) c19Case {
 		case "read":
 			x := rapid.SampledFrom(qs).Draw(t, "q")
 			op.Call, op.Opt = x.c, x.o
+			op.Reuse = rapid.Bool().Draw(t, "reuse-options-value")
 		}
 		c.Ops = append(c.Ops, op)
 	}
@@ -159,6 +163,8 @@ func checkC19(ctx *pbt.Ctx, c c19Case) error {
 		alive[c19Names[0]] = gen
 	}
 	W := memoization.New(inner)
+	sharedLO := &storage.LookupOptions{}
+	reusedReads := 0
 	seenRead := map[string]bool{}    // (generation, call, opt) read before (cache candidates)
 	seenCallOpt := map[string]bool{} // call read with some option before
 	wroteSince := map[int]bool{}
@@ -242,7 +248,13 @@ func checkC19(ctx *pbt.Ctx, c c19Case) error {
 			}
 			hi := op.H % len(handles)
 			h := handles[hi]
-			wr := callLookup(h.w, op.Call, op.Opt.build())
+			wlo := op.Opt.build()
+			if op.Reuse {
+				op.Opt.applyTo(sharedLO)
+				wlo = sharedLO
+				reusedReads++
+			}
+			wr := callLookup(h.w, op.Call, wlo)
 			pr := callLookup(h.p, op.Call, op.Opt.build())
 			desc := fmt.Sprintf("step %d %s with %s through handle #%d of %q", i, describeCall(op.Call), describeOpt(op.Opt), hi, h.name)
 			if wr.Panicked != nil {
@@ -281,6 +293,9 @@ func checkC19(ctx *pbt.Ctx, c c19Case) error {
 	}
 	if multiHandle {
 		ctx.Label("several-handles")
+	}
+	if reusedReads >= 2 {
+		ctx.Label("options-value-reused")
 	}
 	if hitAfterWrite || nearKey {
 		ctx.Nontrivial()
